@@ -49,6 +49,12 @@ def batch_cases(orders, full_n, sample, rnd):
 
 def replay(pid, hv, d, rp, tier):
     t = TIERS["quick"]
+    if rp["family"] == "order":
+        cf, of = os.path.join(d, "order_cases.ndjson"), os.path.join(d, "order_obs.ndjson")
+        rl.write_ndjson(cf, [dict(rp["case"], alpha=[], out=[])])
+        rl.harness(hv, ["sortprobe", "-in", cf, "-out", of], 300)
+        viol, _, _ = rl.monitor(d, "RenderOrderObs.tla", "ordermon", of, "", par=1)
+        return sorted({n for _, n in viol})
     if rp["family"] == "batch":
         cf, of = os.path.join(d, "replay_batch.ndjson"), os.path.join(d, "replay_batch_obs.ndjson")
         rl.write_ndjson(cf, [rp["case"]] * 5)      # timing: the violation can only be missed, never invented
@@ -79,6 +85,24 @@ def run(pid, tier, seed, replay_path=None):
         return 1 if names else 0
 
     rnd = random.Random(seed)
+    # 0. are the kind tables of the code those of the specification?  If not, the property ("the fixed install kind
+    #    order, unknown kinds last") is judged on what the REAL sort does with kinds the tables treat differently
+    rl.harness(hv, ["meta", "-out", os.path.join(d, "meta.json")], 120)
+    meta = json.load(open(os.path.join(d, "meta.json")))
+    oviol, otried = rl.order_probe(hv, d, meta, seed)
+    if oviol:
+        for k, (name, o) in enumerate(oviol[:8]):
+            path = os.path.join(vdir, "%s_%s_%d.json" % (name, o["table"], k))
+            json.dump({"family": "order", "case": {"table": o["table"], "kinds": o["kinds"]}}, open(path, "w"))
+            print("VIOLATION property=%s replay=%s check=%s case=%s table, kinds %s sorted by the real code to %s"
+                  % (pid, path, name, o["table"], o["kinds"], o["out"]))
+        vlib.write_evidence(pid, tier, seed, "model_checking",
+                            {"evaluations": otried, "distinct_nontrivial": len(oviol), "samples": [o for _, o in oviol[:3]],
+                             "rule": "the kind tables of the code differ from spec/RenderBase.tla; pairs of kinds the two tables order differently "
+                                     "were sorted by the real releaseutil.SortManifests and judged by RenderOrderObs.tla",
+                             "states": otried, "transitions": otried, "traces_validated_against_impl": otried},
+                            time.time() - t0, len(oviol), [])
+        return 1
     # 1. enumeration
     gen_s = rl.run_gen(d, t["gen"], t["gen_timeout"])
     cases = os.path.join(d, "cases_c08.ndjson")
